@@ -15,6 +15,7 @@ Pipeline (every property):
 """
 import json
 import random
+import time
 
 from lib import vlib
 
@@ -50,7 +51,9 @@ def drive(ctx, sub, hdr, cases, describe, timeout=1500):
     """Replay cases on the real modules; report Layer-P contradictions; return #failures."""
     for i, c in enumerate(cases):
         c["id"] = i + 1
+    t0 = time.time()
     res = ctx.harness("mods2", [sub], cases=hdr + cases, timeout=timeout)
+    ctx.notes.append("harness %s: %d cases in %.1fs" % (sub, len(cases), time.time() - t0))
     crash = [r for r in res if "_harness_exit" in r]
     if crash or not any(r.get("summary") for r in res):
         raise vlib.MachineryError("mods2 %s harness died: %s" % (sub, (crash or res[-1:])))
@@ -85,6 +88,7 @@ FULL = ["a.txt", "sub", "b.txt", "out", "c.txt", "secret.txt", "index.html", "em
         "..%2fout", "..%2F..", "%2e%2e%2fout%2fsecret.txt", "..%5cout", "%00", "a.txt%00", "<long>",
         "<rawnul>"]
 CORE = ["a.txt", "sub", "out", "c.txt", "zz", "..", ".", "", "%2e%2e", "..%2fout"]
+CORE8 = ["a.txt", "sub", "out", "c.txt", "..", "", "%2e%2e", "..%2fout"]
 
 
 def static_defs(maxseg, alpha, methods, defaults, compress, aes):
@@ -122,10 +126,10 @@ def check_c50(ctx):
                        "request parser, temp tree with a secret outside the root). distinct = distinct inputs.")
     runs = []
     if q:
-        runs.append(("full2", static_defs(2, FULL, ["GET", "HEAD", "POST"], ["", "index.html"], [True, False], ["", "gzip"]), None))
-        runs.append(("core4", static_defs(4, CORE, ["GET"], ["", "index.html"], [True], ["gzip"]), None))
-        runs.append(("given", static_defs(0, CORE, ["GET", "HEAD"], ["", "sub/b.txt"], [True], ["", "gzip"]),
-                     given_paths(ctx, 1200, 3, 7)))
+        runs.append(("full2", static_defs(2, FULL, ["GET", "HEAD", "POST"], ["", "index.html"], [True], ["", "gzip"]), None))
+        runs.append(("core4", static_defs(4, CORE8, ["GET"], ["", "index.html"], [True], ["gzip"]), None))
+        runs.append(("given", static_defs(0, CORE, ["GET"], ["", "sub/b.txt"], [True, False], ["gzip"]),
+                     given_paths(ctx, 1000, 3, 7)))
     else:
         runs.append(("full3", static_defs(3, FULL, ["GET"], ["", "index.html"], [True], ["gzip"]), None))
         runs.append(("full2", static_defs(2, FULL, ["GET", "HEAD", "POST", "PUT", "DELETE", "OPTIONS"],
@@ -222,8 +226,8 @@ def check_c54(ctx):
                                allr, allce, [True], ["GET200"], ["small"], [512], ["lo"])
         shape = compress_defs(1, ["gzip", "br"], [""], ["t"], True, ["gzip", "brotli"], ["", "identity"],
                               [True, False], ["GET200", "HEAD200", "204", "304"],
-                              ["empty", "one", "small", "flush-1", "flush", "flush+1", "multi", "large", "random"],
-                              [64, 512, 4096], ["lo", "hi"])
+                              ["empty", "one", "small", "flush", "flush+1", "multi", "large", "random"],
+                              [64, 4096], ["lo", "hi"])
     else:
         decide = compress_defs(2, ["gzip", "br", "identity", "*", "deflate", "x-gzip", "GZIP"],
                                ["", "0", "0.0", "0.5", "1"], ["t", "s", "a"], True,
